@@ -31,7 +31,7 @@ from harness import c10_wrappers as cw  # noqa: E402
 from lib import checklib  # noqa: E402
 
 PID = "C06"
-BUILDS = [("own.yaml", "own.hpp"), ("cls.yaml", "cls.hpp"), ("strs.yaml", "strs.hpp"), ("cstrs.yaml", "cstrs.h")]
+BUILDS = [("own.yaml", "own.hpp"), ("own2.yaml", "own2.hpp"), ("cls.yaml", "cls.hpp"), ("strs.yaml", "strs.hpp"), ("cstrs.yaml", "cstrs.h")]
 
 
 def classes_with_dtor(build):
@@ -192,11 +192,16 @@ class CopyReleaseHarness(object):
         ex = Executor(e, m, cap=24 if self.helper.endswith("CopyArray") else 4)
         self.ex = ex
         self.released = []
+        self.owned = []
         h = self
 
         def ext(ex_, name, argv, argt, rt):
             if name.endswith("_SHROUD_memory_destructor"):
                 h.released.append(argv[0])
+                # the destructor deletes the C++ object and with it the storage the context points into:
+                # anything read from it afterwards is a use after release
+                for o_ in h.owned:
+                    o_.live = False
                 return None
             raise Unsupported("%s calls %s" % (fn, name))
         ex.stubs["*"] = ext
@@ -246,6 +251,7 @@ class CopyReleaseHarness(object):
             ex.store_int(Ptr(data, ir.field_offset(rs, 4)), z3.BitVecVal(1, 64), 64)
             third = dn
         ex.store_ptr(Ptr(data, ir.field_offset(rs, 1)), src)
+        self.owned = [held] + ([src.obj] if isinstance(src, Ptr) and src.obj is not None else [])
         ex.call_function(fn, [Ptr(data, 0), Ptr(dst, 0), third])
         return ex
 
